@@ -9,6 +9,11 @@ def _is_stdout_expr(node):
     return d in ('sys.stdout', 'sys.__stdout__', 'stdout')
 
 
+# names of methods defined by classes of the analysed repository (filled by core.Repo): a call of such a name is a repo call,
+# not an argparse one
+REPO_METHODS = set()
+
+
 def stdout_write(call):
     """Return a short description if this call writes to standard output, else None."""
     d = dotted(call.func)
@@ -33,6 +38,12 @@ def stdout_write(call):
         f = kwarg(call, 'file')
         if f is not None and _is_stdout_expr(f):
             return d + '(file=sys.stdout)'
+        return None
+    if isinstance(call.func, ast.Attribute) and call.func.attr in ('print_usage', 'print_help', 'print_version') \
+            and call.func.attr not in REPO_METHODS:
+        f = kwarg(call, 'file', 0)
+        if f is None or _is_stdout_expr(f) or (isinstance(f, ast.Constant) and f.value is None):
+            return '%s() writes the argparse text to stdout' % call.func.attr
         return None
     if d in ('contextlib.redirect_stdout', 'redirect_stdout'):
         return 'redirect_stdout(...) swaps the process-wide sys.stdout (other threads write there meanwhile)'
